@@ -386,6 +386,160 @@ theorem gen_vector_spline_predict_eq_model (e n : α) (fe fn f1 f2 : List α) (f
   simp only [List.getD_cons_zero, List.getD_cons_succ]
   exact gen_predict_2d_numpy_eq_model e n fe fn f1 f2 mindist poisson h1 h2 h3
 
+/-! ### Size independence of the array code
+
+The bridges above are stated at one observation point.  The theorems below lift them to query arrays of ANY length: the regenerated
+`predict_numpy` / `jacobian_numpy` of a concatenation is the concatenation of their values on the parts, so a query array is handled point by
+point, whatever its size — no block of points is skipped, shifted or overwritten (the relational checks of `harness/props/large.py` test this same
+law on the implementation at 2^16 .. 2^17 points). -/
+
+theorem predict_step_append (g : α → α → α) (r₁ r₂ e₁ e₂ n₁ n₂ : List α)
+    (hr : r₁.length = e₁.length) (hn : n₁.length = e₁.length) :
+    List.zipWith (· + ·) (r₁ ++ r₂) (List.zipWith g (e₁ ++ e₂) (n₁ ++ n₂))
+      = List.zipWith (· + ·) r₁ (List.zipWith g e₁ n₁) ++ List.zipWith (· + ·) r₂ (List.zipWith g e₂ n₂) := by
+  rw [List.zipWith_append (by omega : e₁.length = n₁.length)]
+  rw [List.zipWith_append (by simp [List.length_zipWith, hr, hn])]
+
+theorem predict_fold_append (g : Nat → α → α → α) (e₁ e₂ n₁ n₂ : List α) (hn : n₁.length = e₁.length) :
+    ∀ (js : List Nat) (r₁ r₂ : List α), r₁.length = e₁.length →
+      js.foldl (fun (result : List α) j => List.zipWith (· + ·) result (List.zipWith (g j) (e₁ ++ e₂) (n₁ ++ n₂))) (r₁ ++ r₂)
+        = js.foldl (fun (result : List α) j => List.zipWith (· + ·) result (List.zipWith (g j) e₁ n₁)) r₁
+          ++ js.foldl (fun (result : List α) j => List.zipWith (· + ·) result (List.zipWith (g j) e₂ n₂)) r₂ := by
+  intro js
+  induction js with
+  | nil => intro r₁ r₂ _; rfl
+  | cons j js ih =>
+    intro r₁ r₂ hr
+    simp only [List.foldl_cons]
+    rw [predict_step_append (g j) r₁ r₂ e₁ e₂ n₁ n₂ hr hn]
+    exact ih _ _ (by simp [List.length_zipWith, hr, hn])
+
+/-- **Size independence (about the regenerated source).**  `predict_numpy` on a concatenated query is the concatenation of `predict_numpy` on
+    the parts, for parts of every length. -/
+theorem src_predict_numpy_append (e₁ e₂ n₁ n₂ fe fn : List α) (mindist : α) (forces : List α) (hn : n₁.length = e₁.length) :
+    Gen.predictNumpy (e₁ ++ e₂) (n₁ ++ n₂) fe fn mindist forces
+      = Gen.predictNumpy e₁ n₁ fe fn mindist forces ++ Gen.predictNumpy e₂ n₂ fe fn mindist forces := by
+  unfold Gen.predictNumpy
+  simp only [List.map_append]
+  exact predict_fold_append (fun j e n => Gen.greensNumpy (e - fe.getD j (lit 0)) (n - fn.getD j (lit 0)) mindist * forces.getD j (lit 0))
+    e₁ e₂ n₁ n₂ hn _ _ _ (by simp)
+
+theorem predict_numpy_nil (fe fn : List α) (mindist : α) (forces : List α) :
+    Gen.predictNumpy ([] : List α) [] fe fn mindist forces = [] := by
+  unfold Gen.predictNumpy
+  generalize List.range forces.length = js
+  simp only [List.map_nil]
+  induction js with
+  | nil => rfl
+  | cons j js ih => simpa [List.foldl_cons] using ih
+
+/-- **Bridge for query arrays of every length.**  `predict_numpy` as regenerated from the source equals the model's prediction at the whole
+    list of observation points — the single-point bridge lifted by the append law. -/
+theorem gen_predict_numpy_all_eq_model (pts : List (α × α)) (fe fn forces : List α) (mindist : α)
+    (h1 : fe.length = forces.length) (h2 : fn.length = forces.length) :
+    Gen.predictNumpy (pts.map (·.1)) (pts.map (·.2)) fe fn mindist forces = splinePredict pts (fe.zip fn) mindist forces := by
+  induction pts with
+  | nil => simpa [splinePredict] using predict_numpy_nil fe fn mindist forces
+  | cons p ps ih =>
+    have h := src_predict_numpy_append [p.1] (ps.map (·.1)) [p.2] (ps.map (·.2)) fe fn mindist forces rfl
+    simp only [List.map_cons, List.singleton_append] at h ⊢
+    rw [h, ih, gen_predict_numpy_eq_model p.1 p.2 fe fn forces mindist h1 h2]
+    simp [splinePredict]
+
+/-- **Size independence of the Jacobian (about the regenerated source).**  The rows of `jacobian_numpy` for a concatenated list of observation
+    points are the rows for the first part followed by the rows for the second. -/
+theorem src_jacobian_numpy_append (e₁ e₂ n₁ n₂ fe fn : List α) (mindist : α) (hn : n₁.length = e₁.length) :
+    Gen.jacobianNumpy (e₁ ++ e₂) (n₁ ++ n₂) fe fn mindist
+      = Gen.jacobianNumpy e₁ n₁ fe fn mindist ++ Gen.jacobianNumpy e₂ n₂ fe fn mindist := by
+  unfold Gen.jacobianNumpy
+  rw [List.zip_append (by omega : e₁.length = n₁.length), List.map_append]
+
+theorem predict2d_fold_append (g h : Nat → α → α → α) (e₁ e₂ n₁ n₂ : List α) (hn : n₁.length = e₁.length) :
+    ∀ (js : List Nat) (r₁ r₂ s₁ s₂ : List α), r₁.length = e₁.length → s₁.length = e₁.length →
+      js.foldl (fun (acc : List α × List α) j =>
+          (List.zipWith (· + ·) acc.1 (List.zipWith (g j) (e₁ ++ e₂) (n₁ ++ n₂)), List.zipWith (· + ·) acc.2 (List.zipWith (h j) (e₁ ++ e₂) (n₁ ++ n₂))))
+          (r₁ ++ r₂, s₁ ++ s₂)
+        = ((js.foldl (fun (acc : List α × List α) j =>
+              (List.zipWith (· + ·) acc.1 (List.zipWith (g j) e₁ n₁), List.zipWith (· + ·) acc.2 (List.zipWith (h j) e₁ n₁))) (r₁, s₁)).1
+            ++ (js.foldl (fun (acc : List α × List α) j =>
+              (List.zipWith (· + ·) acc.1 (List.zipWith (g j) e₂ n₂), List.zipWith (· + ·) acc.2 (List.zipWith (h j) e₂ n₂))) (r₂, s₂)).1,
+           (js.foldl (fun (acc : List α × List α) j =>
+              (List.zipWith (· + ·) acc.1 (List.zipWith (g j) e₁ n₁), List.zipWith (· + ·) acc.2 (List.zipWith (h j) e₁ n₁))) (r₁, s₁)).2
+            ++ (js.foldl (fun (acc : List α × List α) j =>
+              (List.zipWith (· + ·) acc.1 (List.zipWith (g j) e₂ n₂), List.zipWith (· + ·) acc.2 (List.zipWith (h j) e₂ n₂))) (r₂, s₂)).2) := by
+  intro js
+  induction js with
+  | nil => intro r₁ r₂ s₁ s₂ _ _; rfl
+  | cons j js ih =>
+    intro r₁ r₂ s₁ s₂ hr hs
+    simp only [List.foldl_cons]
+    rw [predict_step_append (g j) r₁ r₂ e₁ e₂ n₁ n₂ hr hn, predict_step_append (h j) s₁ s₂ e₁ e₂ n₁ n₂ hs hn]
+    exact ih _ _ _ _ (by simp [List.length_zipWith, hr, hn]) (by simp [List.length_zipWith, hs, hn])
+
+/-- **Size independence (about the regenerated source).**  `predict_2d_numpy` on a concatenated query is, component by component, the
+    concatenation of its values on the parts. -/
+theorem src_predict_2d_numpy_append (e₁ e₂ n₁ n₂ fe fn : List α) (mindist poisson : α) (forces : List α) (hn : n₁.length = e₁.length) :
+    Gen.predict2dNumpy (e₁ ++ e₂) (n₁ ++ n₂) fe fn mindist poisson forces
+      = ((Gen.predict2dNumpy e₁ n₁ fe fn mindist poisson forces).1 ++ (Gen.predict2dNumpy e₂ n₂ fe fn mindist poisson forces).1,
+         (Gen.predict2dNumpy e₁ n₁ fe fn mindist poisson forces).2 ++ (Gen.predict2dNumpy e₂ n₂ fe fn mindist poisson forces).2) := by
+  unfold Gen.predict2dNumpy
+  simp only [List.map_append]
+  exact predict2d_fold_append
+    (fun j e n => (Gen.greens2d (e - fe.getD j (lit 0)) (n - fn.getD j (lit 0)) mindist poisson).1 * forces.getD j (lit 0)
+        + (Gen.greens2d (e - fe.getD j (lit 0)) (n - fn.getD j (lit 0)) mindist poisson).2.2 * forces.getD (j + forces.length / 2) (lit 0))
+    (fun j e n => (Gen.greens2d (e - fe.getD j (lit 0)) (n - fn.getD j (lit 0)) mindist poisson).2.2 * forces.getD j (lit 0)
+        + (Gen.greens2d (e - fe.getD j (lit 0)) (n - fn.getD j (lit 0)) mindist poisson).2.1 * forces.getD (j + forces.length / 2) (lit 0))
+    e₁ e₂ n₁ n₂ hn _ _ _ _ _ (by simp) (by simp)
+
+theorem fold2_nil (g h : Nat → List α) : ∀ js : List Nat,
+    js.foldl (fun (acc : List α × List α) j => (List.zipWith (· + ·) acc.1 (g j), List.zipWith (· + ·) acc.2 (h j))) (([] : List α), ([] : List α))
+      = ([], []) := by
+  intro js
+  induction js with
+  | nil => rfl
+  | cons j js ih => simpa [List.foldl_cons] using ih
+
+theorem predict_2d_numpy_nil (fe fn : List α) (mindist poisson : α) (forces : List α) :
+    Gen.predict2dNumpy ([] : List α) [] fe fn mindist poisson forces = ([], []) := by
+  unfold Gen.predict2dNumpy
+  simp only [List.map_nil]
+  exact fold2_nil _ _ _
+
+/-- **Bridge for query arrays of every length.**  `predict_2d_numpy` as regenerated from the source equals the model's vector prediction at the
+    whole list of observation points. -/
+theorem gen_predict_2d_numpy_all_eq_model (pts : List (α × α)) (fe fn f1 f2 : List α) (mindist poisson : α)
+    (h1 : fe.length = f1.length) (h2 : fn.length = f1.length) (h3 : f2.length = f1.length) :
+    Gen.predict2dNumpy (pts.map (·.1)) (pts.map (·.2)) fe fn mindist poisson (f1 ++ f2)
+      = ((vectorPredict pts (fe.zip fn) mindist poisson f1 f2).map (·.1), (vectorPredict pts (fe.zip fn) mindist poisson f1 f2).map (·.2)) := by
+  induction pts with
+  | nil => simpa [vectorPredict] using predict_2d_numpy_nil fe fn mindist poisson (f1 ++ f2)
+  | cons p ps ih =>
+    have h := src_predict_2d_numpy_append [p.1] (ps.map (·.1)) [p.2] (ps.map (·.2)) fe fn mindist poisson (f1 ++ f2) rfl
+    simp only [List.map_cons, List.singleton_append] at h ⊢
+    rw [h, ih, gen_predict_2d_numpy_eq_model p.1 p.2 fe fn f1 f2 mindist poisson h1 h2 h3]
+    simp [vectorPredict]
+
+/-- **`Spline.predict` at query arrays of every length** (about the regenerated source): the model's prediction at the whole list of points. -/
+theorem gen_spline_predict_all_eq_model (pts : List (α × α)) (fe fn forces : List α) (frest crest : List (List α)) (mindist : α)
+    (h1 : fe.length = forces.length) (h2 : fn.length = forces.length) :
+    Gen.splinePredict (fe :: fn :: frest) mindist forces (pts.map (·.1) :: pts.map (·.2) :: crest) = splinePredict pts (fe.zip fn) mindist forces := by
+  unfold Gen.splinePredict
+  simp only [List.getD_cons_zero, List.getD_cons_succ]
+  exact gen_predict_numpy_all_eq_model pts fe fn forces mindist h1 h2
+
+/-- **`VectorSpline2D.predict` at query arrays of every length** (about the regenerated source). -/
+theorem gen_vector_spline_predict_all_eq_model (pts : List (α × α)) (fe fn f1 f2 : List α) (frest crest : List (List α)) (mindist poisson : α)
+    (h1 : fe.length = f1.length) (h2 : fn.length = f1.length) (h3 : f2.length = f1.length) :
+    Gen.vectorSplinePredict (fe :: fn :: frest) mindist poisson (f1 ++ f2) (pts.map (·.1) :: pts.map (·.2) :: crest)
+      = ((vectorPredict pts (fe.zip fn) mindist poisson f1 f2).map (·.1), (vectorPredict pts (fe.zip fn) mindist poisson f1 f2).map (·.2)) := by
+  unfold Gen.vectorSplinePredict
+  simp only [List.getD_cons_zero, List.getD_cons_succ]
+  exact gen_predict_2d_numpy_all_eq_model pts fe fn f1 f2 mindist poisson h1 h2 h3
+
+/-- Every query size is met by the hypotheses (a hundred thousand points, seven forces): premises satisfiable. -/
+example : ((List.replicate 100000 (0 : Nat)).length = (List.replicate 100000 (1 : Nat)).length) := by
+  rw [List.length_replicate, List.length_replicate]
+
 end Loops
 
 end Verde.C03
